@@ -30,8 +30,130 @@ func checkC14(r *core.Run) {
 		return
 	}
 	c14Determinism(r, p)
+	c14Wipes(r, p)
 	c14Consts(r, p)
 	c14Path(r, p)
+}
+
+// c14Wipes: sys.ClearBuffer overwrites its argument with random bytes. The determinism rule exempts it
+// because it only touches buffers that are no longer used; that holds only if no wiped buffer shares
+// memory with configuration that later derivations read (the seed prefix of wallet.cfg, the key list
+// while it is in use). Every wiped buffer in the wallet must therefore be rooted in memory allocated for
+// it: a local array, make, the result of a library call, or the result of a wallet function all of whose
+// returned buffers are such - never in a package-level variable, neither directly nor through append
+// (which writes in place when the capacity allows).
+func c14Wipes(r *core.Run, p *core.Program) {
+	const rule = "R-C14-determinism"
+	allowed := map[string]string{"wallet.keys": "wiped in cleanExit, immediately before the process exits"}
+	var roots func(v ssa.Value, depth int, seen map[ssa.Value]bool) []string
+	freshFn := map[*ssa.Function][]string{}
+	busy := map[*ssa.Function]bool{}
+	fnRoots := func(f *ssa.Function, idx int, depth int) []string {
+		key := f
+		if r, ok := freshFn[key]; ok && idx == 0 {
+			return r
+		}
+		if busy[f] || depth > 4 {
+			return nil
+		}
+		busy[f] = true
+		var out []string
+		for _, b := range f.Blocks {
+			if ret, ok := b.Instrs[len(b.Instrs)-1].(*ssa.Return); ok && idx < len(ret.Results) {
+				out = append(out, roots(ret.Results[idx], depth+1, map[ssa.Value]bool{})...)
+			}
+		}
+		delete(busy, f)
+		if idx == 0 {
+			freshFn[key] = out
+		}
+		return out
+	}
+	roots = func(v ssa.Value, depth int, seen map[ssa.Value]bool) []string {
+		if v == nil || seen[v] || depth > 12 {
+			return nil
+		}
+		seen[v] = true
+		switch x := v.(type) {
+		case *ssa.Slice:
+			return roots(x.X, depth, seen)
+		case *ssa.Convert:
+			return roots(x.X, depth, seen)
+		case *ssa.ChangeType:
+			return roots(x.X, depth, seen)
+		case *ssa.Phi:
+			var out []string
+			for _, e := range x.Edges {
+				out = append(out, roots(e, depth, seen)...)
+			}
+			return out
+		case *ssa.Global:
+			pk := ""
+			if x.Pkg != nil {
+				pk = strings.TrimPrefix(x.Pkg.Pkg.Path(), core.Module+"/") + "."
+			}
+			return []string{pk + x.Name()}
+		case *ssa.UnOp:
+			if x.Op != token.MUL {
+				return nil
+			}
+			switch a := x.X.(type) {
+			case *ssa.Global:
+				return roots(a, depth, seen)
+			case *ssa.FieldAddr:
+				return roots(a.X, depth, seen)
+			case *ssa.IndexAddr:
+				return roots(a.X, depth, seen)
+			case *ssa.Alloc:
+				var out []string
+				for _, ref := range *a.Referrers() {
+					if st, ok := ref.(*ssa.Store); ok && st.Addr == ssa.Value(a) {
+						out = append(out, roots(st.Val, depth, seen)...)
+					}
+				}
+				return out
+			}
+			return roots(x.X, depth, seen)
+		case *ssa.FieldAddr:
+			return roots(x.X, depth, seen)
+		case *ssa.IndexAddr:
+			return roots(x.X, depth, seen)
+		case *ssa.Extract:
+			if c, ok := x.Tuple.(*ssa.Call); ok {
+				if cal := an.StaticCallee(c); cal != nil && core.InModule(cal) && cal.Blocks != nil {
+					return fnRoots(cal, x.Index, depth)
+				}
+			}
+			return nil
+		case *ssa.Call:
+			if an.CallName(x) == "builtin.append" {
+				return roots(x.Call.Args[0], depth, seen)
+			}
+			if cal := an.StaticCallee(x); cal != nil && core.InModule(cal) && cal.Blocks != nil {
+				return fnRoots(cal, 0, depth)
+			}
+			return nil
+		}
+		return nil // Alloc, MakeSlice, constants, parameters: memory of this activation or of the caller
+	}
+	n := 0
+	var bad []string
+	for _, f := range p.ModuleFuncs() {
+		if pk := core.FuncPkg(f); pk == nil || !strings.HasSuffix(pk.Path(), "/wallet") || strings.Contains(pk.Path(), "client/") {
+			continue
+		}
+		for _, c := range an.CallsTo(f, false, "lib/others/sys.ClearBuffer") {
+			n++
+			for _, g := range roots(c.Common().Args[0], 0, map[ssa.Value]bool{}) {
+				if _, ok := allowed[g]; ok {
+					continue
+				}
+				bad = append(bad, fmt.Sprintf("%s wipes memory that may belong to %s at %s", f.Name(), g, p.Pos(an.InstrPos(c.(ssa.Instruction)))))
+			}
+		}
+	}
+	sort.Strings(bad)
+	r.Check(len(bad) == 0 && n >= 15, rule, "wipes-only-own-buffers", "-", fmt.Sprintf("%d wipes, none of memory rooted in a package-level variable (except the key list at exit)", n), strings.Join(bad, "; "))
 }
 
 func c14Determinism(r *core.Run, p *core.Program) {
